@@ -727,6 +727,32 @@ func neutralize(n *gen.N) *gen.N {
 	return c
 }
 
+// neutralizeBelow is neutralize for everything below n (its operands, the
+// conditions and subscripts of its accessor chain); n keeps its own chain.
+func neutralizeBelow(n *gen.N) *gen.N {
+	c := n.Clone()
+	c.Walk(func(x *gen.N) {
+		if x == c {
+			return
+		}
+		if integralNum(x) {
+			if math.Abs(x.F) < 1<<52 {
+				x.F += 0.5
+			} else {
+				x.F = 1.5
+			}
+		}
+		if isCompoundHead(x) && x.Next != nil {
+			if x.IsPredKind() {
+				*x = gen.N{K: gen.KNull}
+			} else {
+				x.Next = nil
+			}
+		}
+	})
+	return c
+}
+
 // cleanRoundTrip reports whether a path survives Parse(String()) unchanged.
 func cleanRoundTrip(p *path.Path) bool {
 	ok := true
@@ -761,6 +787,28 @@ func attribute(p *path.Path) []string {
 		return nil
 	}
 	if !cleanRoundTrip(pn) {
+		return nil
+	}
+	// The recorded defect of compound heads is one of position: the head is
+	// printed without parentheses where it is an operand. Standing alone as
+	// the whole path (its own operands neutralised) a binary operator with a
+	// chain survives the round trip; one that does not is something else.
+	alone := true
+	ap.Root.Walk(func(x *gen.N) {
+		if !alone || x.K != gen.KBin || x.Next == nil {
+			return // (unary and is-unknown heads lose their parentheses wherever they stand)
+		}
+		sub := neutralizeBelow(x)
+		st := gen.Spell(&gen.Path{Lax: true, Root: sub}, nil)
+		ps, err, pan := h.ParseSafe(st)
+		if err != nil || pan != "" {
+			return
+		}
+		if gen.FromAST(ps.AST).Sexp() == (&gen.Path{Lax: true, Root: gen.Normalize(sub.Clone())}).Sexp() && !cleanRoundTrip(ps) {
+			alone = false
+		}
+	})
+	if !alone {
 		return nil
 	}
 	return causes
